@@ -358,6 +358,7 @@ def _run_real(case, strategy, record=None):
                     r = orig_r2(cf_graph, outcomes, condition, **kw)
                     record["rule2"].append({"level": len(record["levels"]) - 1, "cf": K.enc_nx_cf_graph(cf_graph),
                                             "outcomes": [E.enc_var(o) for o in outcomes],
+                                            "others": [E.enc_var(o) for o in kw.get("other_conditions", ())],
                                             "condition": E.enc_var(condition), "result": bool(r)})
                     return r
 
@@ -439,9 +440,10 @@ def _union(o, c):
 
 
 def _documented_rule2(call):
-    """The rule-2 test AS DOCUMENTED in idc_star.py, recomputed independently of the code (path-enumeration d-separation
-    of oracles/sep_paths.py): every outcome is d-separated from the condition in the counterfactual graph without the
-    edges leaving the condition, given the self-intervened nodes other than the two tested ones.  None = out of scope."""
+    """The rule-2 test AS DOCUMENTED in idc_star.py ((Y _||_ Z | X, Z - {Z}) in G_{bar X, underbar Z}), recomputed
+    independently of the code (path-enumeration d-separation of oracles/sep_paths.py): every outcome is d-separated from
+    the condition in the counterfactual graph without the edges leaving the condition, given the self-intervened nodes AND
+    THE OTHER CONDITIONS (since `fix:` 1834c39 the code passes them), the two tested nodes excepted.  None = out of scope."""
     from ..oracles import sep_paths as SP
 
     _, nodes, di, bi = call["cf"]
@@ -454,6 +456,10 @@ def _documented_rule2(call):
     g = {"nodes": list(range(len(nodes))), "di": [[idx[key(u)], idx[key(w)]] for u, w in di if idx[key(u)] != c],
          "bi": [[idx[key(u)], idx[key(w)]] for u, w in bi]}
     blocked = {i for i, n in enumerate(nodes) if any(int(a) == int(n[1]) for a, _ in n[4])}
+    for o in call.get("others", []):
+        if idx.get(key(o)) is None:
+            return None
+        blocked.add(idx[key(o)])
     try:
         return all(o != c and SP.d_separated(g, o, c, sorted(blocked - {o, c})) for o in outs)
     except SP.OracleDisagreement:
@@ -486,6 +492,9 @@ def _exchange_kind(g, before, after, seed, n_models):
         return K.mkvar(var[1], subs)
     new_star = {s_ for (v1, _), (v2, _) in zip(o1, o2) for n, s_ in v2[4]
                 if int(n) == name and not any(int(n1) == name for n1, _ in v1[4])}
+    if not new_star and gone[0][1] in ("m", "p"):
+        # no outcome descends from the exchanged condition: the subscript it WOULD have received carries the condition's value
+        new_star = {gone[0][1]}
     if len(new_star) == 1:
         st = next(iter(new_star))
         flip = "m" if st == "p" else "p"
@@ -493,7 +502,10 @@ def _exchange_kind(g, before, after, seed, n_models):
                not any(int(n1) == name for n1, _ in v1[4]) else [v2, val] for (v1, _), (v2, val) in zip(o1, o2)]
         if len({C.enc(v) for v, _ in o2f}) == len(o2f) and not _ratio_differs(g, before, (o2f, c2), seed, n_models):
             return "exchange:polarity"
-        c2s = [[with_sub(v, st), val] if int(v[1]) != name else [v, val] for v, val in c2]
+        # (a remaining condition that already carries a subscript for the exchanged variable lives in a world where that
+        # variable is set: it keeps it)
+        c2s = [[with_sub(v, st), val] if int(v[1]) != name and not any(int(n_) == name for n_, _ in v[4]) else [v, val]
+               for v, val in c2]
         if c2s != c2 and len({C.enc(v) for v, _ in c2s}) == len(c2s) and \
                 not _ratio_differs(g, before, (o2, c2s), seed, n_models):
             return "exchange:conditions"
